@@ -1746,6 +1746,105 @@ def inline_generator_delegation(prog, known):
     return count
 
 
+def dissolve_namedtuples(prog):
+    """P45: a namedtuple type defined in the module (the reference tree has none) is dissolved: `X(a, b, c)` -> `(a, b, c)` and
+    `r.field` -> `r[i]` for a local r (bound by assignment / loop / comprehension in that function, not a parameter) on which only
+    fields of X are ever read."""
+    count = 0
+    for m in prog.modules.values():
+        types = {}
+        for st in ast.walk(m.tree):
+            if isinstance(st, ast.Assign) and len(st.targets) == 1 and isinstance(st.targets[0], ast.Name) and isinstance(st.value, ast.Call) \
+                    and ast.unparse(st.value.func).split(".")[-1] == "namedtuple" and len(st.value.args) == 2 and not st.value.keywords:
+                f = st.value.args[1]
+                if isinstance(f, ast.Constant) and isinstance(f.value, str):
+                    fields = f.value.replace(",", " ").split()
+                elif isinstance(f, (ast.List, ast.Tuple)) and all(isinstance(e, ast.Constant) and isinstance(e.value, str) for e in f.elts):
+                    fields = [e.value for e in f.elts]
+                else:
+                    continue
+                types[st.targets[0].id] = fields
+        if not types:
+            continue
+
+        class Ctor(ast.NodeTransformer):
+            def visit_Call(self, n):
+                nonlocal count
+                self.generic_visit(n)
+                if isinstance(n.func, ast.Name) and n.func.id in types and not any(isinstance(a, ast.Starred) for a in n.args) and all(k.arg for k in n.keywords):
+                    fields = types[n.func.id]
+                    vals = dict(zip(fields, n.args))
+                    vals.update({k.arg: k.value for k in n.keywords})
+                    if set(vals) == set(fields):
+                        count += 1
+                        return ast.copy_location(ast.Tuple(elts=[vals[f] for f in fields], ctx=ast.Load()), n)
+                return n
+        Ctor().visit(m.tree)
+        for fn in [n for n in ast.walk(m.tree) if isinstance(n, ast.FunctionDef)]:
+            params = {a.arg for a in fn.args.args + fn.args.kwonlyargs} | ({fn.args.vararg.arg} if fn.args.vararg else set()) | ({fn.args.kwarg.arg} if fn.args.kwarg else set())
+            own = [x for x in ast.walk(fn)]
+            reads = {}
+            for x in own:
+                if isinstance(x, ast.Attribute) and isinstance(x.value, ast.Name):
+                    reads.setdefault(x.value.id, []).append(x)
+            stores = {}
+            for x in own:
+                if isinstance(x, ast.Name) and isinstance(x.ctx, ast.Store):
+                    stores.setdefault(x.id, []).append(x)
+            for r, accs in reads.items():
+                if r in params or r not in stores or r in ("self", "stage", "opti", "master"):
+                    continue
+                hit = [(t, f) for t, f in types.items() if all(a.attr in f and isinstance(a.ctx, ast.Load) for a in accs)]
+                if not hit:
+                    continue
+                fields = hit[0][1]
+                all_uses = [x for x in own if isinstance(x, ast.Name) and x.id == r and isinstance(x.ctx, ast.Load)]
+                only_fields = len(all_uses) == len(accs)
+                # a loop variable read only through its fields is unpacked in the loop header, with the field names as the
+                # element names where those are free (or merely aliases `f = r.f`, which then disappear)
+                loops = [l for l in own if isinstance(l, ast.For) and any(t is stores[r][0] for t in ast.walk(l.target))]
+                if only_fields and len(stores[r]) == 1 and len(loops) == 1:
+                    names = {}
+                    for f in fields:
+                        others = [x for x in stores.get(f, [])]
+                        alias_only = all(any(isinstance(st, ast.Assign) and len(st.targets) == 1 and st.targets[0] is x and isinstance(st.value, ast.Attribute)
+                                             and isinstance(st.value.value, ast.Name) and st.value.value.id == r and st.value.attr == f for st in own) for x in others)
+                        used = any(a.attr == f for a in accs)
+                        names[f] = (f if (f not in params and alias_only) else "%s_%s" % (r, f)) if used else "_"
+                    for a in accs:
+                        nm = names[a.attr]
+                        a.__class__ = ast.Name
+                        a.id = nm
+                        a._fields = ("id", "ctx")
+                        del a.attr, a.value
+                    tgt = ast.Tuple(elts=[ast.Name(id=names[f], ctx=ast.Store()) for f in fields], ctx=ast.Store())
+                    loop = loops[0]
+                    if loop.target is stores[r][0]:
+                        loop.target = tgt
+                    else:
+                        for t in ast.walk(loop.target):
+                            if isinstance(t, ast.Tuple):
+                                t.elts = [tgt if e is stores[r][0] else e for e in t.elts]
+                    # drop the aliases that became `f = f`
+                    for blk in ast.walk(fn):
+                        for fld in ("body", "orelse", "finalbody"):
+                            lst = getattr(blk, fld, None)
+                            if isinstance(lst, list):
+                                lst[:] = [st for st in lst if not (isinstance(st, ast.Assign) and len(st.targets) == 1 and isinstance(st.targets[0], ast.Name)
+                                                                   and isinstance(st.value, ast.Name) and st.value.id == st.targets[0].id)] or ([ast.Pass()] if lst else lst)
+                    count += 1
+                    continue
+                for a in accs:
+                    a.__class__ = ast.Subscript
+                    a.slice = ast.Constant(value=fields.index(a.attr))
+                    a._fields = ("value", "slice", "ctx")
+                    del a.attr
+                    count += 1
+        if count:
+            ast.fix_missing_locations(m.tree)
+    return count
+
+
 def canonicalise(prog):
     _CLASS_NAMES.clear()
     _CLASS_NAMES.update(prog.classes)
